@@ -141,6 +141,21 @@ class Tracer(SymEval):
         self.field_store = {}       # access path -> (value, guards at the store, loops at the store)
         self.loop_fields = {}       # loop id -> {access path: value on loop entry} for fields stored to inside that loop
         self._lhs = 0
+        self._fnlevel = set()           # ids of the body blocks of expanded helpers (function level: guard-clause returns compose into the value)
+        self._accounted_returns = 0
+
+    def inline_body(self, body, args):
+        """expansion of a helper: a function-level `if c { return X }` makes the helper's value ite(c, X, rest); a `return` anywhere else
+        in a helper that yields a value cannot be composed and makes that value unknown (never silently the fall-through value)"""
+        blk = body.value
+        self._fnlevel.add(id(blk))
+        n0 = len([e for e in self.events if e.callee == "<return-inner>"])
+        acc0 = self._accounted_returns
+        v = super().inline_body(body, args)
+        inner = len([e for e in self.events if e.callee == "<return-inner>"]) - n0
+        if inner > self._accounted_returns - acc0 and v != ("tuple", []) and v != ("never",):
+            return app("value_with_unread_returns", vkey(v) if not isinstance(v, Poly) else v, num(next_seq()))
+        return v
 
     # -- tracked fields -------------------------------------------------------
     def e_field(self, n, env):
@@ -549,7 +564,8 @@ class Tracer(SymEval):
 
     def _e_block_guarded(self, n, env, pushed):
         env = dict(env) if n.get("stmts") else env
-        for s in n.get("stmts", []):
+        stmts_ = n.get("stmts", [])
+        for si_, s in enumerate(stmts_):
             if s["k"] == "let":
                 if "init" in s:
                     v = self.eval(s["init"], env)
@@ -602,11 +618,31 @@ class Tracer(SymEval):
                     if t_div != e_div and (t_div or "e" in ee):
                         c = self.eval(ee["c"], env)
                         if not (isinstance(c, tuple) and c and c[0] == "bool"):
+                            n_ev0 = len(self.events)
                             self.guards.append((c, True))
                             try:
                                 self.eval(ee["t"], dict(env))
                             finally:
                                 self.guards.pop()
+                            if id(n) in self._fnlevel and t_div and "e" not in ee and SymEval._guard_return(ee) is not None:
+                                # function-level guard clause of an expanded helper: its value is  if c { X } else { rest of the body }
+                                rets_ = [e_ for e_ in self.events[n_ev0:] if e_.callee in ("<return>", "<return-inner>")]
+                                if len(rets_) == 1:
+                                    self._accounted_returns += 1
+                                    self.guards.append((c, False))
+                                    pushed[0] += 1
+                                    rest_ = {"k": "block", "stmts": stmts_[si_ + 1:], "ty": n.get("ty")}
+                                    if n.get("e") is not None:
+                                        rest_["e"] = n["e"]
+                                    self._fnlevel.add(id(rest_))
+                                    sub = [0]
+                                    try:
+                                        rv_ = self._e_block_guarded(rest_, env, sub)
+                                    finally:
+                                        for _ in range(sub[0]):
+                                            self.guards.pop()
+                                    from .symx import mk_ite
+                                    return mk_ite(c, rets_[0].args[0], rv_)
                             if "e" in ee:
                                 self.guards.append((c, False))
                                 try:
